@@ -29,7 +29,9 @@ def main(argv):
     except boot.HarnessError as error:
         sys.stderr.write("HARNESS ERROR: %s\n" % error)
         return 2
-    except Exception:
+    except (SystemExit, KeyboardInterrupt):
+        raise
+    except BaseException:
         import traceback
         sys.stderr.write("HARNESS ERROR:\n" + traceback.format_exc())
         return 2
